@@ -13,7 +13,7 @@ from __future__ import annotations
 
 import ast
 
-from ..facts import atoms, call_is, meth_is, strip
+from ..facts import cases, atoms, call_is, meth_is, strip
 from ..model import is_self_attr, norm
 from ..raises import Config, Raises, Val
 from ..terms import show, subterms, summarize
@@ -72,28 +72,41 @@ def run(ctx):
     file = fn.module.rel
     s = summarize(prog, fn)
     # ---- C18.a ---------------------------------------------------------------------
+    # create_task call sites - in the callback or in helpers it calls that the rules do not know - with the state before the
+    # callback's own statement that reaches them, and whether a loop encloses them anywhere on the way
+    from ..helpers import ancestor_chains, term_lookup
+    tl = term_lookup(prog, fn)
     creates = []
-    for node, st in s.ta.env_at.items():
-        pass
-    # find create_task call sites and the state before their statement
-    for stmt_node, st in list(s.ta.env_at.items()):
-        if not isinstance(stmt_node, ast.stmt) or isinstance(stmt_node, (ast.If, ast.For, ast.While, ast.Try, ast.With, ast.FunctionDef)):
-            continue
-        for n in ast.walk(stmt_node):
-            if isinstance(n, ast.Call) and n in s.ta.terms_at and call_is(s.ta.terms_at[n], "asyncio.create_task", "asyncio.ensure_future"):
-                creates.append((stmt_node, n, st))
+    root_nodes = {id(n) for n in ast.walk(fn.node)}
+    sites = ancestor_chains(prog, fn, lambda f_, n: tl(n) is not None and call_is(tl(n), "asyncio.create_task", "asyncio.ensure_future"))
+    for _f, call, chains in sites:
+        for chain in chains:
+            nodes = [x for x, _fld in chain]
+            stmt_node = next((x for x in nodes if id(x) in root_nodes and isinstance(x, ast.stmt) and x in s.ta.env_at
+                              and not isinstance(x, (ast.If, ast.For, ast.While, ast.Try, ast.With, ast.FunctionDef, ast.AsyncFunctionDef))), None)
+            if stmt_node is None:
+                continue
+            creates.append((stmt_node, call, s.ta.env_at[stmt_node], any(isinstance(x, (ast.For, ast.While, ast.AsyncFor)) for x in nodes)))
     params = fn.params
     addr_p = params[2] if len(params) > 2 else "addr"
-    for stmt_node, call, st in creates:
+    for stmt_node, call, st, _in_loop in creates:
         ctx.count("create_task_sites")
         facts = atoms(st.pc)
         seen_set = None
-        key_ok = False
-        for f in facts:
-            if f[0] == "cmp" and f[1] == "not in":
-                comp = addr_component(f[2], addr_p)
-                if comp == 0 and f[3][0] == "attr" and f[3][1] == ("param", params[0]):
-                    seen_set, key_ok = f[3], True
+        key_ok = True
+        # (every case of the path condition: a seen-test inside an inlined helper arrives as a gated boolean)
+        for case in cases(st.pc):
+            hit = None
+            for f in case:
+                if f[0] == "cmp" and f[1] == "not in":
+                    comp = addr_component(f[2], addr_p)
+                    if comp == 0 and strip(f[3])[0] == "attr" and strip(f[3])[1] == ("param", params[0]):
+                        hit = strip(f[3])
+            if hit is None:
+                key_ok = False
+            else:
+                seen_set = hit
+        key_ok = key_ok and seen_set is not None
         ctx.ob("C18.a", DG, key_ok, "task creation is dominated by `source address not in <seen set>` on the address component of addr",
                func=DG, file=file, node=stmt_node, detail={"path_facts": [show(f) for f in facts]},
                fail="a task can be created for a datagram whose source address was not tested against the seen set "
@@ -133,12 +146,7 @@ def run(ctx):
     for n in ast.walk(fn.node):
         for c in ast.iter_child_nodes(n):
             par[c] = n
-    for stmt_node, call, st in creates:
-        n, in_loop = call, False
-        while n in par:
-            n = par[n]
-            if isinstance(n, (ast.For, ast.While, ast.AsyncFor)):
-                in_loop = True
+    for stmt_node, call, st, in_loop in creates:
         ctx.ob("C18.a", DG, not in_loop, "create_task is not inside a loop (exactly one task per new address)", func=DG, file=file, node=stmt_node,
                fail="create_task inside a loop: several tasks per datagram")
     ctx.ob("C18.a", DG, len(creates) <= 1, "a single create_task site", func=DG, file=file, construct="create_task sites",
